@@ -139,6 +139,14 @@ add('C11', 'exploration',
     'frames all touch one key, or with one frame in flight, are judged strictly throughout. Send-window effects of remote '
     'INITIAL_WINDOW_SIZE changes (incl. reserved streams) are judged by C03.')
 
+add('C13', 'exploration',
+    'runtime monitoring: monitor-owned HPACK decoder fed every emitted block + encoder-state snapshots around raising calls',
+    'Every emitted header block is decoded in order by an independent decoder whose limits follow the SETTINGS the scripted peer '
+    'announced, and must equal the normal form of the successful call (unique tag per call). About a third of the header calls '
+    'raise (validation after a prefix of fresh indexable fields, state, trailer, priority and push errors); each must emit '
+    'nothing and leave the encoder snapshot unchanged, and later blocks re-using the same fields must still decode.',
+    'Whether an invalid call should have been refused is C08/C14 business; an accepted call is judged as a successful call.')
+
 NOT_BUILT_REASON = 'check not built yet in this session (planned in DESIGN.md; no verdict claimed)'
 
 def main():
